@@ -196,4 +196,29 @@ NonEmpty(t)           == NonEmptyFrom(t, TermReps(t), RInit(t))
 SubLang(a, b)         == ~NonEmpty(TAnd(<<a, TNot(b)>>))
 Equiv(a, b)           == SubLang(a, b) /\ SubLang(b, a)
 StartsWith(t, c)      == NonEmpty(TQuot(c, t))            \* some member of L(t) begins with c
+
+-----------------------------------------------------------------------------
+(* str.replace_re / str.replace_re_all (SMT-LIB 2.6): leftmost, then shortest match.      *)
+(* FirstEnd(t, s, i, minLen): the least j >= i + minLen such that s[i..j) is in L(t), or -1 *)
+RECURSIVE ScanEnd(_, _, _, _, _)
+ScanEnd(t, s, q, j, minJ) ==             \* q = residual state after reading s[i..j)
+  IF j >= minJ /\ RFinal(t, q) THEN j
+  ELSE IF j >= Len(s) THEN -1
+  ELSE ScanEnd(t, s, RStep(t, q, s[j + 1]), j + 1, minJ)
+FirstEnd(t, s, i, minLen) == ScanEnd(t, s, RInit(t), i, i + minLen)
+\* leftmost position >= from with a match of length >= minLen, as <<i, j>>, or <<-1, -1>>
+RECURSIVE LeftmostFrom(_, _, _, _)
+LeftmostFrom(t, s, from, minLen) ==
+  IF from > Len(s) THEN <<-1, -1>>
+  ELSE LET j == FirstEnd(t, s, from, minLen) IN
+       IF j >= 0 THEN <<from, j>> ELSE LeftmostFrom(t, s, from + 1, minLen)
+ReplaceRe(s, t, u) ==
+  LET m == LeftmostFrom(t, s, 0, 0) IN
+  IF m[1] < 0 THEN s ELSE SubSeq(s, 1, m[1]) \o u \o SubSeq(s, m[2] + 1, Len(s))
+RECURSIVE ReplaceReAllFrom(_, _, _, _)
+ReplaceReAllFrom(s, t, u, from) ==
+  LET m == LeftmostFrom(t, s, from, 1) IN                  \* non-empty matches only
+  IF m[1] < 0 THEN SubSeq(s, from + 1, Len(s))
+  ELSE SubSeq(s, from + 1, m[1]) \o u \o ReplaceReAllFrom(s, t, u, m[2])
+ReplaceReAll(s, t, u) == ReplaceReAllFrom(s, t, u, 0)
 =============================================================================
